@@ -48,7 +48,7 @@ def pVal : Nat → List Char → PR
       let (d, r') := takeWhileC (fun c => c.isDigit || c == '-') r
       (String.ofList d).toInt?.map (fun n => (.leaf (.flt n), r'))
     | 's' :: r =>
-      let (d, r') := takeWhileC (fun c => c.isAlphanum || c == '_') r
+      let (d, r') := takeWhileC (fun c => c.isAlphanum || c == '_' || c == '!' || c == '?') r
       some (.leaf (.str (String.ofList d)), r')
     | '[' :: r =>
       match pList fuel r with
@@ -88,7 +88,7 @@ def pObjItems : Nat → List Char → Option (List (Option String × L) × List 
         match cs with
         | '*' :: r => (pVal fuel r).map (fun p => ((none, p.1), p.2))
         | _ =>
-          let (nm, r) := takeWhileC (fun c => c.isAlphanum || c == '_') cs
+          let (nm, r) := takeWhileC (fun c => c.isAlphanum || c == '_' || c == '!' || c == '?') cs
           match r with
           | '=' :: r' => (pVal fuel r').map (fun p => ((some (String.ofList nm), p.1), p.2))
           | _ => none
